@@ -903,6 +903,9 @@ func SearchStreams(ctx context.Context, indexes []*Reader, limitIDs *bitmask.Lon
 	if len(qs) == 0 {
 		return nil, false, nil, nil
 	}
+	// the conditions of pending tags get inlined into the query, their time
+	// bounds have to be relative to the same reference time as the query's
+	tagDetails = query.RebaseTagDetails(tagDetails, refTime)
 	qs = qs.InlineTagFilters(tagDetails)
 
 	var sortingLess func(a, b *Stream) bool
